@@ -21,11 +21,12 @@ type c05opt struct {
 	survive bool     // the target must still be alive at the end
 	mustEnd bool     // the target must have ended
 	tiers   string
+	extra   func(w *World) // further clauses, evaluated after the common ones
 }
 
 func reasonOf(s string) string {
 	// exit signals are wrapped as "<pid>: reason"
-	if i := strings.LastIndex(s, ": "); i >= 0 && strings.HasPrefix(s, "<") {
+	if i := strings.LastIndex(s, ": "); i >= 0 && (strings.HasPrefix(s, "<") || strings.HasPrefix(s, "Alias#<") || strings.HasPrefix(s, "Event#<")) {
 		return s[i+2:]
 	}
 	return s
@@ -92,6 +93,9 @@ func c05Scenario(name string, o c05opt, build func(w *World)) {
 							}
 						}
 						w.Out("obs=%v/%v", exits, downs)
+					}
+					if o.extra != nil {
+						o.extra(w)
 					}
 					w.Out("alive=%v term=%v log=%s", alive, r.term, strings.Join(r.log, ","))
 				}
@@ -183,6 +187,65 @@ func init() {
 		prev := w.Check
 		_ = prev
 	})
+	// exit signals of links to a name, an alias and an event carry the node's core pid as sender - which is also the
+	// parent of a process spawned by the node itself: a trapping process still gets them as ordinary messages and
+	// keeps running; a process that does not trap terminates with the target's reason
+	for _, kind := range []string{"name", "alias", "event"} {
+		for _, trap := range []bool{true, false} {
+			kind, trap := kind, trap
+			name := map[bool]string{true: "trapped-", false: "untrapped-"}[trap] + kind + "-link-exit"
+			o := c05opt{qb: 1, tb: 2, survive: trap, mustEnd: !trap, causes: []string{"kill"}}
+			o.extra = func(w *World) {
+				n := 0
+				for _, l := range w.recs["R"].log {
+					if l == "M:exit"+kind+"(kill)" {
+						n++
+					}
+				}
+				if trap && n != 1 {
+					w.ex.Fail("trapped-exit-not-a-message", "R traps exits and is linked to the %s of a process that was killed: it handled %d exit messages (want 1); log=%v", kind, n, w.recs["R"].log)
+				}
+				if !trap && n != 0 {
+					w.ex.Fail("untrapped-exit-as-message", "R does not trap exits, yet the exit signal was handed to HandleMessage; log=%v", w.recs["R"].log)
+				}
+			}
+			c05Scenario(name, o, func(w *World) {
+				pid := target(w, trap)
+				r := &rec{name: "T"}
+				w.recs["T"] = r
+				w.Setup("spawnT", func() {
+					tp, err := w.n.SpawnRegister("tname", func() gen.ProcessBehavior { return &probe{} }, gen.ProcessOptions{}, probeCfg{rec: r})
+					if err != nil {
+						panic(err)
+					}
+					w.pids["T"] = tp
+				})
+				var al gen.Alias
+				w.Do("T", func(p *probe) error {
+					al, _ = p.CreateAlias()
+					_, err := p.RegisterEvent("tev", gen.EventOptions{})
+					return err
+				})
+				w.Do("R", func(p *probe) error {
+					var err error
+					switch kind {
+					case "name":
+						err = p.LinkProcessID(gen.ProcessID{Name: "tname", Node: w.n.Name()})
+					case "alias":
+						err = p.LinkAlias(al)
+					default:
+						_, err = p.LinkEvent(gen.Event{Name: "tev", Node: w.n.Name()})
+					}
+					if err != nil {
+						panic(err)
+					}
+					return nil
+				})
+				w.ex.Thread("K", func() { w.n.Kill(w.pids["T"]) })
+				w.ex.Thread("S2", func() { w.n.Send(pid, "b") })
+			})
+		}
+	}
 	// pairs of causes racing
 	pair := func(name string, causes []string, a, b func(w *World, pid gen.PID)) {
 		c05Scenario(name, c05opt{qb: 2, tb: 3, causes: causes, mustEnd: true}, func(w *World) {
